@@ -107,6 +107,10 @@ func (store *Store) Get(ctx context.Context, key string) ([]byte, error) {
 
 // Put implements go-ipld-prime/storage.WritableStorage.Put.
 func (store *Store) Put(ctx context.Context, key string, content []byte) error {
+	if key == "" {
+		// The zero key tells the WriteCommitter to discard the write; report that rather than return success.
+		return fmt.Errorf("fsstore: cannot store under the empty key")
+	}
 	// We can't improve much on what we get by wrapping the stream interface;
 	//  we always end up using a streaming action on the very bottom because that's how file writing works
 	//   (especially since we care about controlling the write flow enough to be able to do the atomic move at the end).
